@@ -162,7 +162,7 @@ def build(ctx):
     src = text + ctx.contract('C06/harness.cpp')
     thorough = ctx.tier == 'thorough'
     vlen = 3 if thorough else 2
-    pool = 48
+    pool = 96
     groups = []
     # the whole composition device::setupKernelInfo -> modeDevice->kernelHash + kernelHeaderHash + source hash, per mode
     variants = [('serial', 'occa::serial::device', True), ('openmp', 'occa::openmp::device', True)]
@@ -172,7 +172,7 @@ def build(ctx):
             defs.append('VERIF_COMPOSE')
         groups.append(Group(
             name='key/' + name, sources={'c06.cpp': src, 'model_c.c': ctx.contract('C06/model_c.c')}, entry='h_keys', lang='cpp', defines=defs,
-            unwind=49, object_bits=12, min_obligations=15, functions=fns, canary='CANARY', canary_label='canary',
+            unwind=97, object_bits=12, model_limits=r'model: interning pool capacity|verif_pool', min_obligations=15, functions=fns, canary='CANARY', canary_label='canary',
             strength='bounded' if concatenating else 'proof', timeout=int(os.environ.get('C06_TIMEOUT', '600')),
             bound='value dumps are strings of exactly %d arbitrary non-zero bytes (names and values are concatenated before hashing)' % vlen,
             param='mode=%s compose=%s' % (md, compose),
